@@ -405,6 +405,18 @@ class Ctx:
                     s = q if self.branch(B.cmp("<=", -q.n)) else -q
                     self._memo[key] = s
                     return s
+        if s is None and r.d and all(k % 2 == 0 for k in r.d.values()) and not r.n.is_const():
+            # n / e^2: sqrt = sqrt(n) / |e|  (keeps the radicand polynomial, so that its defining equation is a rewrite rule)
+            e_poly = P1
+            for a, k in r.d.items():
+                for _ in range(k // 2):
+                    e_poly = e_poly * a
+            inv_e = Rat(P1, {a: k // 2 for a, k in r.d.items()})
+            root_n = self.sqrt(Rat(r.n))
+            pos = self.branch(B.cmp("<=", -e_poly)) if not e_poly.is_const() else (e_poly.cval() >= 0)
+            s = root_n * inv_e if pos else -(root_n * inv_e)
+            self._memo[key] = s
+            return s
         if s is None:
             sp = r.sign_poly()
             nonneg = B.cmp("<=", -sp)
